@@ -243,6 +243,33 @@ impl<S: Selector<Pop>> ChildMaker<Pop, S> for Failing {
     }
 }
 
+/// A child maker that is NOT zero-sized and in which callers meet: every call waits (briefly) until a
+/// second caller is inside too, then proceeds like `Cloner`. Shared between threads through the
+/// `Send + Sync` flavours.
+struct Meeting {
+    inside: std::sync::atomic::AtomicUsize,
+    id: u64,
+}
+impl<S: Selector<Pop>> ChildMaker<Pop, S> for Meeting
+where
+    S::Error: std::fmt::Display,
+{
+    type Error = Refused;
+    fn make_child<R: Rng + ?Sized>(&self, rng: &mut R, pop: &Pop, sel: &S) -> Result<Ind, Refused> {
+        use std::sync::atomic::Ordering::SeqCst;
+        self.inside.fetch_add(1, SeqCst);
+        let t0 = std::time::Instant::now();
+        while self.inside.load(SeqCst) < 2 && t0.elapsed().as_millis() < 200 {
+            std::thread::yield_now();
+        }
+        std::thread::sleep(std::time::Duration::from_millis(2));
+        let r = Cloner.make_child(rng, pop, sel);
+        self.inside.fetch_sub(1, SeqCst);
+        let _ = self.id;
+        r
+    }
+}
+
 fn population(argseed: u64) -> Pop {
     let mut r = SmallRng::seed_from_u64(argseed ^ 0xE5A5);
     let n = if argseed % 5 == 0 { 0 } else { 2 + argseed % 6 };
@@ -487,6 +514,50 @@ fn trace(args: &[String]) -> i32 {
             let sel = Tournament::new(NonZeroUsize::new(2).expect("k"));
             show(ChildMaker::make_child(&w, rng, &pop, &sel).map(|c| (c.genome, c.test_results.total_result)))
         }));
+    }
+    // two threads inside `make_child` of ONE erased child maker at the same time (the Send + Sync
+    // flavours exist for this): each gets what the concrete child maker gives for its own generator
+    for round in 0..seeds.min(6) {
+        group += 1;
+        let a = 1 + round; // a non-empty population
+        let pop = population(a);
+        let sel = Tournament::new(NonZeroUsize::new(2).expect("k"));
+        let want: Vec<String> = (0..2u64)
+            .map(|t| {
+                let mut rng = SmallRng::seed_from_u64(seed ^ (round * 2 + t));
+                show(Cloner.make_child(&mut rng, &pop, &sel).map(|c| (c.genome, c.test_results.total_result)))
+            })
+            .collect();
+        out.line(&json!({"ev": "reset", "run": group, "op": "child_maker/concurrent"}));
+        let shared: std::sync::Arc<DCsy<'static>> = std::sync::Arc::new(Meeting { inside: std::sync::atomic::AtomicUsize::new(0), id: round });
+        let by_ref_owner = Meeting { inside: std::sync::atomic::AtomicUsize::new(0), id: round };
+        let by_ref: &DCsy<'_> = &by_ref_owner;
+        for (form, run_two) in [("Arc<DCsy>", 0), ("&DCsy", 1)] {
+            let got: Vec<String> = std::thread::scope(|s| {
+                let hs: Vec<_> = (0..2u64)
+                    .map(|t| {
+                        let (pop, sel, shared) = (&pop, &sel, shared.clone());
+                        s.spawn(move || {
+                            let mut rng = SmallRng::seed_from_u64(seed ^ (round * 2 + t));
+                            guarded(|| {
+                                if run_two == 0 {
+                                    show(ChildMaker::make_child(&shared, &mut rng, pop, sel).map(|c| (c.genome, c.test_results.total_result)))
+                                } else {
+                                    show(ChildMaker::make_child(&by_ref, &mut rng, pop, sel).map(|c| (c.genome, c.test_results.total_result)))
+                                }
+                            })
+                            .unwrap_or_else(|m| format!("panic: {m}"))
+                        })
+                    })
+                    .collect();
+                hs.into_iter().map(|h| h.join().unwrap_or_else(|_| "thread died".to_string())).collect()
+            });
+            for t in 0..2usize {
+                let key = format!("child_maker|concurrent|round{round}|caller{t}");
+                out.line(&json!({"ev": "obs", "run": group, "op": "child_maker/concurrent", "phase": "concrete", "key": key, "val": {"result": want[t]}}));
+                out.line(&json!({"ev": "obs", "run": group, "op": "child_maker/concurrent", "phase": format!("{form}, two threads inside at once"), "key": key, "val": {"result": got[t]}}));
+            }
+        }
     }
     out.finish();
     0
